@@ -489,3 +489,69 @@ def src_line(file, line, repo=None):
     if 1 <= line <= len(ls):
         return ls[line - 1].strip()
     return ""
+
+
+# ----------------------------------------------------------------------------------------------
+# structural shapes (for sibling comparison)
+
+
+def shape(node, env=None):
+    """A nested tuple describing the structure of a HIR subtree: node kinds, operators, literal
+    values, field names, resolved callees/paths.  Locals are numbered by first occurrence so that
+    a consistent renaming does not change the shape.  Spans, ids and types are ignored."""
+    if env is None:
+        env = {}
+    if isinstance(node, list):
+        return tuple(shape(x, env) for x in node)
+    if not isinstance(node, dict):
+        return node
+    k = node.get("k")
+    if k is None:
+        # arm / field record etc.
+        return tuple((key, shape(node[key], env)) for key in sorted(node) if key not in ("span", "ty", "aty", "id"))
+    if k in ("DropTemps", "Use", "Type"):
+        return shape(node["e"], env)
+    items = [k]
+    if k == "Path":
+        r = node.get("res", {})
+        if "local" in r:
+            lid = r["lid"]
+            if lid not in env:
+                env[lid] = len(env)
+            return ("local", env[lid])
+        return ("path", norm(r.get("ctor_of") or r.get("def")), r.get("cval"))
+    if k == "Binding":
+        lid = node["lid"]
+        if lid not in env:
+            env[lid] = len(env)
+        return ("bind", env[lid], shape(node.get("sub"), env) if node.get("sub") else None)
+    if k == "Lit":
+        v = node["v"]
+        return ("lit", v.get("lit"), v.get("v")) if isinstance(v, dict) else ("lit", None)
+    if k in ("MethodCall", "Binary", "Unary", "Index", "AssignOp"):
+        items.append(callee(node) if k == "MethodCall" else node.get("op"))
+        if k == "MethodCall":
+            items.append(node.get("name"))
+    if k == "Call" and node.get("resolved"):
+        items.append(norm(node["resolved"]))
+    if k in ("Field",):
+        items.append(node.get("name"))
+    if k in ("Struct", "TupleStruct"):
+        r = node.get("res", {})
+        items.append(norm(r.get("ctor_of") or r.get("def")))
+    if k == "PLit":
+        e = node["e"]
+        if "lit" in e:
+            return ("plit", e.get("lit"), e.get("v"))
+        return ("ppath", norm(e["res"].get("ctor_of") or e["res"].get("def")))
+    if k in ("Break", "Continue"):
+        items.append(node.get("label"))
+    for key in node:
+        if key in ("span", "ty", "aty", "id", "k", "res", "callee", "name", "op", "src", "label", "target", "def", "resolved", "mode", "lid"):
+            continue
+        v = node[key]
+        if isinstance(v, (dict, list)):
+            items.append((key, shape(v, env)))
+        elif key in ("mut", "inclusive", "dd"):
+            items.append((key, v))
+    return tuple(items)
